@@ -369,6 +369,17 @@ def rlimit_sweep():
         sc = {"prop": "C08", "lines": lines, "externals": [], "faults": {}, "files": {}, "config": "rlimit_sweep",
               "adversarial_picks": 10}
         out.append(plines.LineRunner.rebuild(sc))
+    # in-process builtins whose later redirect target cannot be opened after an earlier one was opened
+    def out_r(fd, target, append=False):
+        return {"k": "out", "fd": fd, "append": append, "target": target, "spaced": True, "explicit1": False}
+    for text, redirs in (("alias", [out_r(1, "f1"), out_r(1, "nodir/x")]), ("alias", [out_r(2, "f1"), out_r(1, "f2"), out_r(2, "d0")]),
+                         ("cd /nonexistent_zz", [out_r(1, "f1", True), out_r(2, "f0/x")]),
+                         ("jobs", [out_r(1, "f3"), {"k": "dup", "from": 2, "to": 1}, out_r(1, "nodir/y")])):
+        lines = [{"stages": [{"kind": "builtin", "text": text, "redirs": [dict(r) for r in redirs]}], "probe": False},
+                 {"stages": [pup("prb", {"t": "ignorer", "code": 0}, args=["$?"])], "probe": True}]
+        sc = {"prop": "C08", "lines": lines, "externals": [], "faults": {}, "files": {"f0": "x"}, "config": "explicit_builtin",
+              "adversarial_picks": 0}
+        out.append(plines.LineRunner.rebuild(sc))
     return out
 
 
